@@ -73,3 +73,25 @@ Definition holdout_random (num : Z) (den : positive) (count : option Z)
     else
       dor kh <- split_by (vof_idx n idx) rows;
       Ok (kh, ds').
+
+(* ---- vocabulary of the source translation of create_plate_balanced_holdout_set_among_masked_plates
+   (harness/src_functions.py -> Generated/SrcRetro.v); see the last section of Model/Retro.v ---- *)
+(* np.arange(screen.size)[plate.selection_vector] *)
+Definition vec_indices (v : bvec) : list nat := map fst (filter snd (enum_from 0 v)).
+(* plate.is_observed = np.all(screen.observation_mask[plate.selection_vector]) *)
+Definition vec_observed (v : bvec) (s : screen_t) : bool := forallb r_mask (vselect v s).
+(* math.ceil(size * fraction): exact ceiling, or Python's own value from the oracle list (see the header) *)
+Definition ceil_count (size : Z) (num : Z) (den : positive) (counts : option (list Z))
+  : result (Z * option (list Z)) := next_count (Z.to_nat size) num den counts.
+(* rng.choice(offered, n, replace=False): the recorded answer; numpy returns exactly n values *)
+Definition choose (offered : list nat) (n : Z) (ds : list draw) : result (list nat * list draw) :=
+  dor d <- take_ints ds;
+  let '(idx, ds') := d in
+  if negb (Z.of_nat (length idx) =? n)%Z then Err 91%Z else Ok (idx, ds').
+(* selection_vector[indices] = True *)
+Definition set_true (n : nat) (sel : bvec) (idx : list nat) : bvec := vor sel (vof_idx n idx).
+(* Screen(<every column>[~sel], observation_mask = mask[~sel], the parent's mappings) *)
+Definition screen_without (s : screen_t) (sel : bvec) : result screen_t := construct (vselect (map negb sel) s).
+(* Screen(<every column>[sel], observation_mask = np.ones(count_nonzero(sel)), the parent's mappings) *)
+Definition screen_observed_of (s : screen_t) (sel : bvec) : result screen_t :=
+  construct (map (set_mask true) (vselect sel s)).
